@@ -62,7 +62,7 @@ type ParamSpec struct {
 
 type MethodSpec struct {
 	Name   string      `json:"name"`
-	Beh    string      `json:"beh"` // echo fail internal nilres typednil both
+	Beh    string      `json:"beh"` // echo fail internal nilres typednil both zeroint emptystr falseres failzero …
 	Ctx    bool        `json:"ctx"` // handler takes a context.Context first
 	Hdr    bool        `json:"hdr"` // handler returns (result, http.Header, *Error)
 	Hold   bool        `json:"hold,omitempty"` // the handler reports that it was entered and blocks until the harness releases it
@@ -231,10 +231,27 @@ func (w *World) handler(ms MethodSpec) any {
 		case "both":
 			echo()
 			errV = reflect.ValueOf(&jsonrpc.Error{Code: 7, Message: "both"})
+		// round 5: results and errors that are legitimately "zero" — a 0, an empty string, false, an error whose
+		// code, message and data are zero values — must reach the caller as they are, not as null / absent
+		case "zeroint":
+			res = reflect.New(resType).Elem()
+			res.Set(reflect.ValueOf(0))
+		case "emptystr":
+			res = reflect.New(resType).Elem()
+			res.Set(reflect.ValueOf(""))
+		case "falseres":
+			res = reflect.New(resType).Elem()
+			res.Set(reflect.ValueOf(false))
+		case "failzero":
+			errV = reflect.ValueOf(&jsonrpc.Error{Code: 0, Message: "", Data: 0})
 		}
 		if hdr {
 			h := http.Header{}
-			h.Set("X-Verif-Method", "called")
+			h.Set("X-Verif-Method", name)
+			h.Set("X-Verif-Argc", fmt.Sprint(len(raws)))
+			if name == "ctype" {
+				h.Set("Content-Type", "text/plain")
+			}
 			return []reflect.Value{res, reflect.ValueOf(h), errV}
 		}
 		return []reflect.Value{res, errV}
@@ -242,12 +259,18 @@ func (w *World) handler(ms MethodSpec) any {
 	return reflect.MakeFunc(reflect.FuncOf(in, out, false), fn).Interface()
 }
 
-func NewWorld(spec WorldSpec) (*World, error) {
+func NewWorld(spec WorldSpec) (*World, error) { return NewWorldOpt(spec, log.NewNopZapLogger(), nil) }
+
+// NewWorldOpt: a world whose server logs to `logger` and (if non-nil) reports to `listener`
+func NewWorldOpt(spec WorldSpec, logger log.StructuredLogger, listener jsonrpc.EventListener) (*World, error) {
 	w := &World{Spec: spec, byName: map[string]*MethodSpec{}}
 	if spec.Pool <= 0 {
 		spec.Pool = 4
 	}
-	s := jsonrpc.NewServer(spec.Pool, log.NewNopZapLogger()).WithValidator(rpcv10.Validator())
+	s := jsonrpc.NewServer(spec.Pool, logger).WithValidator(rpcv10.Validator())
+	if listener != nil {
+		s.WithListener(listener)
+	}
 	s.DisableBatchRequests(spec.BatchDisabled)
 	for i := range spec.Methods {
 		ms := spec.Methods[i]
@@ -301,6 +324,10 @@ func fixedWorld(batchDisabled bool, pool int) WorldSpec {
 		{Name: "nilres", Beh: "nilres", Params: []ParamSpec{P("x", true, "int")}},
 		{Name: "typednil", Beh: "typednil"},
 		{Name: "both", Beh: "both", Params: []ParamSpec{P("x", true, "int")}},
+		{Name: "zero", Beh: "zeroint", Params: []ParamSpec{P("x", true, "ptrInt")}},
+		{Name: "empty", Beh: "emptystr", Ctx: true},
+		{Name: "no", Beh: "falseres", Hdr: true, Params: []ParamSpec{P("x", true, "bool")}},
+		{Name: "fail0", Beh: "failzero", Params: []ParamSpec{P("x", true, "int")}},
 	}}
 }
 
@@ -329,7 +356,8 @@ func randomWorld(r *lib.RNG) WorldSpec {
 	nm := r.Range(2, 7)
 	for i := 0; i < nm; i++ {
 		m := MethodSpec{Name: names[i], Ctx: r.Bool(), Hdr: r.Chance(1, 4)}
-		m.Beh = lib.Pick(r, []string{"echo", "echo", "echo", "echo", "fail", "internal", "nilres", "typednil", "both"})
+		m.Beh = lib.Pick(r, []string{"echo", "echo", "echo", "echo", "echo", "fail", "internal", "nilres", "typednil", "both",
+			"zeroint", "emptystr", "falseres", "failzero"})
 		pn := append([]string(nil), paramNamePool...)
 		lib.Shuffle(r, pn)
 		np := lib.Pick(r, []int{0, 1, 1, 2, 2, 3, 3, 4, 5})
